@@ -201,6 +201,7 @@ type sub struct {
 	runRapid func(t *testing.T, s *sub)
 	runEnum  func(t *testing.T, s *sub)
 	replay   func(raw json.RawMessage) error
+	fuzz     func(rt *rapid.T) // one generated case through the oracle, driven by a caller's rapid.T (FuzzGen)
 }
 
 var subs []*sub
@@ -312,6 +313,14 @@ func Register[C any](s Sub[C]) {
 			return fmt.Errorf("bad replay case: %v", err)
 		}
 		return guard(s.Check, c)
+	}
+	x.fuzz = func(rt *rapid.T) {
+		c := s.Gen(rt)
+		if err := guard(s.Check, c); err != nil {
+			fatalIfNoShrink(x.name, c, err)
+			writeViolation(x.name, c, err)
+			rt.Fatalf("%s/%s: %v", property, x.name, capErr(err))
+		}
 	}
 	subs = append(subs, x)
 }
@@ -592,6 +601,58 @@ func ReportFuzz(t *testing.T, subName string, c any, err error) {
 	}
 	writeViolation(subName, c, err)
 	t.Fatalf("%s/%s: %v", property, subName, capErr(err))
+}
+
+// FuzzGen is a native fuzz target over the generators of this package: the fuzzer's octets are rapid's source of
+// choices (rapid.MakeFuzz), so coverage feedback from the library steers the same generators and the same oracles
+// that the rapid runs use; `which` selects the sub-check. A failing case is saved in the replayable form of its
+// sub-check (so `vcheck --replay` runs it through the plain oracle, without rapid and without the fuzzer).
+// Inputs that are too short for the generator are skipped by rapid ("overrun"); the seed corpus therefore holds
+// long pseudo-random strings (a fixed function of the index, no clock, no RNG of our own).
+func FuzzGen(f *testing.F, skip ...string) {
+	var list []*sub
+next:
+	for _, s := range subs {
+		if s.fuzz == nil || (s.tiers != "" && s.tiers != Tier()) || !wantSub(s.name) {
+			continue
+		}
+		for _, k := range skip {
+			if k == s.name {
+				continue next
+			}
+		}
+		list = append(list, s)
+	}
+	if len(list) == 0 {
+		f.Skip("no generated sub-check")
+	}
+	for i := range list {
+		for j, n := range []int{256, 4096, 32768} {
+			f.Add(byte(i), fuzzSeedBytes(uint64(i)*8+uint64(j), n))
+		}
+	}
+	f.Fuzz(func(t *testing.T, which byte, data []byte) {
+		s := list[int(which)%len(list)]
+		mu.Lock()
+		cur = "fuzzgen:" + s.name
+		mu.Unlock()
+		rapid.MakeFuzz(s.fuzz)(t, data)
+	})
+}
+
+// fuzzSeedBytes is a fixed pseudo-random string (splitmix64 of the index).
+func fuzzSeedBytes(idx uint64, n int) []byte {
+	out := make([]byte, 0, n+8)
+	x := idx*0x9E3779B97F4A7C15 + 0x1234567
+	for len(out) < n {
+		x += 0x9E3779B97F4A7C15
+		z := x
+		z = (z ^ (z >> 30)) * 0xBF58476D1CE4E5B9
+		z = (z ^ (z >> 27)) * 0x94D049BB133111EB
+		z ^= z >> 31
+		out = binary.LittleEndian.AppendUint64(out, z)
+	}
+	return out[:n]
 }
 
 // Guard runs check and converts a panic into an error (for fuzz targets).
